@@ -87,6 +87,7 @@ type c08Cfg struct {
 	metrics map[string][]*c08MetricVar
 	queries []c08Query
 	rare    bool
+	tick    time.Duration
 	ops     []c08Op
 	depth   [2]int
 }
@@ -109,6 +110,7 @@ type c08Sys struct {
 	descs  map[*corev1.Pod]string
 	res    *mc.Result
 	sink   string // set by Invariants when a rare-event finding is established in this state
+	quiet  bool   // Invariants is being consulted by Key: no vacuity counting
 }
 
 func c08NewSys(cfg *c08Cfg, res *mc.Result) *c08Sys {
@@ -318,7 +320,7 @@ func c08BuildOps(cfg *c08Cfg) []c08Op {
 						ns.Label = k.Base.Label
 					}
 					s.deliver(p, ns)
-					p.staleMeta = true
+					p.staleMeta, p.tLast = true, s.now()
 				}})
 		}
 		if cfg.rare && k.AltWindow != 0 {
@@ -333,7 +335,7 @@ func c08BuildOps(cfg *c08Cfg) []c08Op {
 						ns.Window = k.Base.Window
 					}
 					s.deliver(p, ns)
-					p.staleMeta = true
+					p.staleMeta, p.tLast = true, s.now()
 				}})
 		}
 	}
@@ -368,9 +370,12 @@ func c08BuildOps(cfg *c08Cfg) []c08Op {
 				}})
 		}
 	}
-	ops = append(ops, c08Op{name: "tick(60s)",
+	if cfg.tick == 0 {
+		cfg.tick = 60 * time.Second
+	}
+	ops = append(ops, c08Op{name: fmt.Sprintf("tick(%v)", cfg.tick),
 		enabled: func(s *c08Sys) bool { return s.ticks < 4 },
-		apply:   func(s *c08Sys) { s.ticks++; s.clk.t = s.clk.t.Add(60 * time.Second) }})
+		apply:   func(s *c08Sys) { s.ticks++; s.clk.t = s.clk.t.Add(cfg.tick) }})
 	return ops
 }
 
@@ -454,6 +459,9 @@ func (s *c08Sys) Invariants() []mc.Violation {
 	s.sink = ""
 	cnt := map[string]int64{}
 	defer func() {
+		if s.quiet {
+			return
+		}
 		for k, v := range cnt {
 			s.res.Count(k, v)
 		}
@@ -504,7 +512,8 @@ func (s *c08Sys) Invariants() []mc.Violation {
 				continue
 			}
 			// ---- independent reference band
-			lo, hi, unamb := c08RefBand(s.cfg.rc, mr.mv, mr.ut, q, as)
+			lo, hi, bst := c08RefBand(s.cfg.rc, mr.mv, mr.ut, q, as)
+			unamb := bst.Unamb
 			base, hasBase := mr.mv.baseUsage(q)
 			switch {
 			case !q.Prod && hasBase && !base.le(got):
@@ -523,6 +532,9 @@ func (s *c08Sys) Invariants() []mc.Violation {
 			}
 			if len(as) > 0 {
 				cnt["judged_"+q.Name+"_with_pods"]++
+				cnt["ref_pods_with_usage_estimate_counted"] += int64(bst.Counted)
+				cnt["ref_pods_with_usage_already_reflected"] += int64(bst.Reflected)
+				cnt["ref_pods_with_usage_either_admitted"] += int64(bst.Either)
 				if lo != hi {
 					cnt["judged_ambiguous_band"]++
 				} else if unamb {
@@ -576,10 +588,16 @@ func c08AssignedDesc(as []c08Assigned) string {
 // by their description) + the reference ledger + the clock. Absolute times are offsets from a fixed base and only
 // advance through tick(), so they are bounded by the depth.
 func (s *c08Sys) Key() string {
-	if s.sink != "" {
-		// a rare-event finding is established: all such states are merged into one sink per class, i.e. the search
-		// does not continue behind them (every transition INTO such a state is still judged and reported)
-		return "SINK|" + s.sink
+	if s.cfg.rare && s.tag() != "plain" {
+		// a state in which a rare-event finding is established is merged into one sink per class, i.e. the search
+		// does not continue behind it (every transition INTO such a state is still judged and reported). The engine
+		// takes the key before it runs the state oracle, so the (read-only) oracle is consulted here.
+		s.quiet = true
+		s.Invariants()
+		s.quiet = false
+		if s.sink != "" {
+			return "SINK|" + s.sink
+		}
 	}
 	var sb strings.Builder
 	vz := s.cache.vectorizer
@@ -713,24 +731,21 @@ func c08Configs(env *mc.Env) []*c08Cfg {
 		c.ops = c08BuildOps(c)
 		cfgs = append(cfgs, c)
 	}
-	th := env.Thorough()
-	// one node, default arguments
-	pods := "xyz"
-	_ = th
-	add(&c08Cfg{name: "1node-" + pods, args: c08Args(0, false, false), nodes: []string{"n1"}, kinds: pick(c08Kinds(false), pods),
-		metrics: map[string][]*c08MetricVar{"n1": m1}, depth: [2]int{5, 6}})
 	// estimation window + custom estimation annotations + system usage counted for prod
 	add(&c08Cfg{name: "1node-window-xy", args: c08Args(90, true, true), nodes: []string{"n1"}, kinds: pick(c08Kinds(true), "xy"),
 		metrics: map[string][]*c08MetricVar{"n1": {m1[1], m1[2], m1[3]}}, depth: [2]int{5, 7}})
 	// two nodes: nodeName changes, binding to another node than the assumed one
 	add(&c08Cfg{name: "2nodes-xz", args: c08Args(0, false, false), nodes: []string{"n1", "n2"}, kinds: pick(c08Kinds(false), "xz"),
-		metrics: map[string][]*c08MetricVar{"n1": {m1[1], m1[3]}, "n2": m2}, depth: [2]int{5, 6}})
+		metrics: map[string][]*c08MetricVar{"n1": {m1[1], m1[3]}, "n2": m2}, depth: [2]int{5, 6}, tick: 90 * time.Second})
 	// rare but producible events, reported under their own keys (VERIF_C08_SKIP_RARE=1 leaves the part out, e.g. to
 	// look at mutants while its findings are not yet registered in known_findings.json)
 	if os.Getenv("VERIF_C08_SKIP_RARE") == "" {
 		add(&c08Cfg{name: "1node-rare-xy", args: c08Args(90, true, false), nodes: []string{"n1"}, kinds: pick(c08Kinds(true), "xy"), rare: true,
 			metrics: map[string][]*c08MetricVar{"n1": {m1[1], m1[3]}}, depth: [2]int{5, 6}})
 	}
+	// one node, default arguments, all three pods (the largest part runs last and gets the remaining time)
+	add(&c08Cfg{name: "1node-xyz", args: c08Args(0, false, false), nodes: []string{"n1"}, kinds: pick(c08Kinds(false), "xyz"),
+		metrics: map[string][]*c08MetricVar{"n1": m1}, depth: [2]int{5, 6}})
 	return cfgs
 }
 
